@@ -83,5 +83,54 @@ def run(facts, tier):
                                 % ([p["m"] + "()" for p in producers], n["m"]), f["file"], n.get("ln"), {}))
     if st4["instances"] < 2:
         raise BrokenCheck("C17-4: %d create_* calls in append_child_to_tree (floor 2)" % st4["instances"])
+    # ---- C17-5: a number result is printed through the XPath string conversion, never through f64's own Display
+    # (which writes inf / -inf where XPath 1.0 4.2 says Infinity / -Infinity)
+    import re
+    st5 = res.rule("C17-5", instances=0)
+    for f in facts.fns.values():
+        if f["crate"] not in TOOLS:
+            continue
+        for bi, t in facts.mir_calls(f):
+            c = t.get("callee")
+            if not c:
+                continue
+            pa = c.get("rpathargs") or c.get("pathargs") or ""
+            m = re.search(r"Argument::<'_>::new_(display|debug|lower_exp|upper_exp)::<(.*)>$", pa)
+            if not m:
+                if re.search(r"^<f64 as std::string::ToString>::to_string$|impl std::fmt::Display for f64>::fmt$", pa):
+                    m = re.match(r"()(.*)", "f64")
+                else:
+                    continue
+            st5["instances"] += 1
+            ty = m.group(2).lstrip("&").strip()
+            bad = ty in ("f64", "f32") or ty.endswith("eval::model::Value")
+            res.oblige(1, not bad)
+            if bad:
+                res.add(Finding("C17-5", "%s|display<%s>" % (f["path"], ty), "%s prints a %s with the standard formatter: an infinite number "
+                                "result is written as inf instead of Infinity; convert with String::try_from(&value)" % (f["path"], ty),
+                                f["file"], t.get("ln"), {}))
+    if st5["instances"] < 4:
+        raise BrokenCheck("C17-5: %d formatted values in the tools (floor 4)" % st5["instances"])
+    # ---- C17-6: xe rebuilds every kind of node of the replacement with the factory of the same kind
+    st6 = res.rule("C17-6", instances=0)
+    f = facts.fn("xe::append_child_to_tree")
+    want = {"Element": "create_element", "Text": "create_text_node", "CData": "create_cdata_section", "Comment": "create_comment",
+            "PI": "create_processing_instruction", "EntityReference": "create_entity_reference", "Attribute": "create_attribute"}
+    from props.c08 import variants_of_pat
+    for n in walk(f["body"]):
+        if n.get("k") == "Match" and n.get("src") == "Normal" and "XmlNode" in str(n.get("scrutty", "")):
+            for arm in n["arms"]:
+                for v in variants_of_pat(arm["pat"]):
+                    if v not in want:
+                        continue
+                    st6["instances"] += 1
+                    made = sorted({m["m"] for m in walk(arm["body"]) if m.get("k") == "MethodCall" and str(m["m"]).startswith("create_")})
+                    ok = made == [want[v]]
+                    res.oblige(1, ok)
+                    if not ok:
+                        res.add(Finding("C17-6", "append_child_to_tree|" + v, "xe rebuilds a %s node of the replacement with %s (expected %s): the "
+                                        "children of the selected element are not the parsed replacement" % (v, made, want[v]), f["file"], arm.get("ln"), {}))
+    if st6["instances"] < 5:
+        raise BrokenCheck("C17-6: %d node kinds rebuilt in append_child_to_tree (floor 5)" % st6["instances"])
     res.functions_analysed = sum(1 for f in facts.fns.values() if f["crate"] in TOOLS)
     return res
